@@ -145,6 +145,7 @@ theorem initRegular_frm {dlv : Dlv} (h : DFrm dlv) (b : Blk) (d : Nat) (s : St) 
   split
   · exact runActs_frm h ..
   · exact setOutput_frm h ..
+  · exact setOutput_frm h ..
   · exact Frm.refl s
 
 theorem initFromValue_frm {dlv : Dlv} (h : DFrm dlv) (b : Blk) (d : Nat) (s : St) :
@@ -282,6 +283,16 @@ theorem fsmEvent_frm {dlv : Dlv} (h : DFrm dlv) (b : Blk) (d : Nat) (stk0 : List
       simp only [h1.fsm]
       exact upd_restore _ _ (by simpa using hfa)
 
+theorem upd_rcur_frm (s : St) (f : Nat → Option (Data × Nat)) : Frm s { s with rcur := f } :=
+  ⟨rfl, rfl, id, fun _ h => h, rfl⟩
+
+theorem repeatEvent_frm {dlv : Dlv} (h : DFrm dlv) (b : Blk) (d : Nat) (s : St) (et : EType)
+    (data : Data) : Frm s (repeatEvent dlv b d s et data).1 := by
+  unfold repeatEvent
+  split
+  · exact Frm.refl s
+  · exact andThen_frm (setOutput_frm h ..) (andThen_frm (sendEdges_frm h ..) (upd_rcur_frm _ _))
+
 theorem inHandler_frm (d : Nat) (stk0 : List Frame) (s : St) (data : Data) (body : St → St × Res)
     (hs : s.stack = stk0)
     (hb : ∀ s4 : St, s4.stack = ⟨d, .handler⟩ :: stk0 → Frm s4 (body s4).1) :
@@ -297,10 +308,12 @@ theorem callHandler_frm {dlv : Dlv} (h : DFrm dlv) (b : Blk) (d : Nat) (stk0 : L
   split
   · exact inHandler_frm d stk0 s data _ hs (fun s4 h4 => fsmEvent_frm h b d stk0 s4 et h4)
   · split
-    · exact Frm.refl s
+    · exact inHandler_frm d stk0 s data _ hs (fun s4 _ => repeatEvent_frm h ..)
     · split
       · exact Frm.refl s
-      · exact inHandler_frm d stk0 s data _ hs (fun s4 _ => handlerBody_frm h ..)
+      · split
+        · exact Frm.refl s
+        · exact inHandler_frm d stk0 s data _ hs (fun s4 _ => handlerBody_frm h ..)
 
 theorem eventBody_frm {dlv : Dlv} (h : DFrm dlv) (b : Blk) (d : Nat) (stk0 : List Frame) (s : St)
     (et : EType) (data : Data) (hs : s.stack = stk0) : Frm s (eventBody dlv b d stk0 s et data).1 := by
@@ -412,6 +425,7 @@ theorem initRegular_P (hp : StPred P) (h : DP P dlv) (b : Blk) (d : Nat) (s : St
   split
   · exact runActs_P hp h _ _ _ _ hs
   · exact setOutput_P hp h _ _ _ _ hs
+  · exact setOutput_P hp h _ _ _ _ hs
   · exact hs
 
 theorem initFromValue_P (hp : StPred P) (h : DP P dlv) (b : Blk) (d : Nat) (s : St) (hs : P s) :
@@ -428,6 +442,14 @@ theorem initBlock_P (hp : StPred P) (h : DP P dlv) (b : Blk) (d : Nat) (s : St) 
   unfold initBlock
   exact andThen_P (initRegular_P hp h _ _ _ (hp s _ hs rfl rfl rfl rfl))
     (fun h1 => andThen_P (initFromValue_P hp h _ _ _ h1) (fun h2 => hp _ _ h2 rfl rfl rfl rfl))
+
+theorem repeatEvent_P (hp : StPred P) (h : DP P dlv) (b : Blk) (d : Nat) (s : St) (et : EType)
+    (data : Data) (hs : P s) : P (repeatEvent dlv b d s et data).1 := by
+  unfold repeatEvent
+  split
+  · exact hs
+  · exact andThen_P (setOutput_P hp h _ _ _ _ hs)
+      (fun h1 => andThen_P (sendEdges_P h _ _ _ _ h1) (fun h2 => hp _ _ h2 rfl rfl rfl rfl))
 
 /-! the FSM functions, given what the window does to `P` -/
 
@@ -673,12 +695,16 @@ theorem eventBody_ok {dlv : Dlv} (hf : DFrm dlv) (h : DP Good dlv) (b : Blk) (d 
     · exact inHandler_ok d a0 stk0 hinv hd s3 data _ h1
         (fun s4 h4 => (fsmEvent_inH d a0 stk0 hinv hd hf h b s4 _ h4).2.2) (hfe.active.trans hact)
     · split
-      · exact h1
+      · exact inHandler_ok d a0 stk0 hinv hd s3 data _ h1
+          (fun s4 h4 => (repeatEvent_P good_stPred h b d s4 _ data (h4.good d a0 stk0 hinv hd)).2)
+          (hfe.active.trans hact)
       · split
         · exact h1
-        · exact inHandler_ok d a0 stk0 hinv hd s3 data _ h1
-            (fun s4 h4 => (handlerBody_P good_stPred h b d s4 _ data (h4.good d a0 stk0 hinv hd)).2)
-            (hfe.active.trans hact)
+        · split
+          · exact h1
+          · exact inHandler_ok d a0 stk0 hinv hd s3 data _ h1
+              (fun s4 h4 => (handlerBody_P good_stPred h b d s4 _ data (h4.good d a0 stk0 hinv hd)).2)
+              (hfe.active.trans hact)
 
 /-- in every execution a handler is entered with nesting depth 1 -/
 theorem deliver_good (c : Circ) (fuel : Nat) : DP Good (deliver c fuel) := by
@@ -783,11 +809,14 @@ theorem deliver_refAbort (c : Circ) (fuel : Nat) : DP RefAbort (deliver c fuel) 
                 (fun s4 h4 => fsmEvent_P refAbort_stPred ih b d s.stack
                   (fun s' wb hs' => fsmWindow_refAbort ih b d s.stack s' wb hs') s4 _ h4)
             · split
-              · exact he
+              · exact inHandler_refAbort d s.stack s3 data _ he
+                  (fun s4 h4 => repeatEvent_P refAbort_stPred ih b d s4 _ data h4)
               · split
                 · exact he
-                · exact inHandler_refAbort d s.stack s3 data _ he
-                    (fun s4 h4 => handlerBody_P refAbort_stPred ih b d s4 _ data h4)
+                · split
+                  · exact he
+                  · exact inHandler_refAbort d s.stack s3 data _ he
+                      (fun s4 h4 => handlerBody_P refAbort_stPred ih b d s4 _ data h4)
 
 /-! ### fuel: the nesting depth of `event()` calls is bounded by the circuit -/
 
@@ -894,12 +923,14 @@ theorem handlerBody_G (hk : KClosed K) (hf : DFrm dlv) (hg : DG K dlv) (b : Blk)
       · exact andThen_G (sendEdges_G hk hf hg _ _ _ _ h) (NoOOF.leaf _ _ (by simp))
       · exact andThen_G (sendEdges_G hk hf hg _ _ _ _ h) (NoOOF.leaf _ _ (by simp))
   · exact NoOOF.leaf _ _ (by simp)
+  · exact NoOOF.leaf _ _ (by simp)
 
 theorem initRegular_G (hk : KClosed K) (hf : DFrm dlv) (hg : DG K dlv) (b : Blk) (d : Nat) (s : St)
     (h : K s) : NoOOF (initRegular dlv b d s) := by
   unfold initRegular
   split
   · exact runActs_G hk hf hg _ _ _ _ h
+  · exact setOutput_G hk hf hg _ _ _ _ h
   · exact setOutput_G hk hf hg _ _ _ _ h
   · exact NoOOF.leaf _ _ (by simp)
 
@@ -915,6 +946,7 @@ theorem initFromValue_G (hk : KClosed K) (hf : DFrm dlv) (hg : DG K dlv) (b : Bl
       · exact NoOOF.leaf _ _ (by simp)
       · exact NoOOF.leaf _ _ (by simp)
       · exact NoOOF.leaf _ _ (by simp)
+      · exact NoOOF.leaf _ _ (by simp)
       · exact hg _ _ _ _ h
       · exact setOutput_G hk hf hg _ _ _ _ h
     · exact NoOOF.leaf _ _ (by simp)
@@ -925,6 +957,14 @@ theorem initBlock_G (hk : KClosed K) (hf : DFrm dlv) (hg : DG K dlv) (b : Blk) (
   refine andThen_G (initRegular_G hk hf hg b d _ h) ?_
   exact andThen_G (initFromValue_G hk hf hg b d _ (hk _ _ h (initRegular_frm hf ..)))
     (NoOOF.leaf _ _ (by simp))
+
+theorem repeatEvent_G (hk : KClosed K) (hf : DFrm dlv) (hg : DG K dlv) (b : Blk) (d : Nat) (s : St)
+    (et : EType) (data : Data) (h : K s) : NoOOF (repeatEvent dlv b d s et data) := by
+  unfold repeatEvent
+  split
+  · exact NoOOF.leaf _ _ (by simp)
+  · exact andThen_G (setOutput_G hk hf hg _ _ _ _ h)
+      (andThen_G (sendEdges_G hk hf hg _ _ _ _ (hk _ _ h (setOutput_frm hf ..))) (NoOOF.leaf _ _ (by simp)))
 
 /-! the FSM functions: `K2` holds inside a transition, `K` inside its window -/
 
@@ -1210,10 +1250,12 @@ theorem deliver_G (c : Circ) (fuel : Nat) : DG (fun s => phi c.n s < fuel) (deli
                 simp only [] at this hK3' ⊢
                 omega
             · split
-              · exact NoOOF.leaf _ _ (by simp)
+              · exact inHandler_G d s.stack _ data _ (repeatEvent_G hk hf ih b d _ _ data hK3)
               · split
                 · exact NoOOF.leaf _ _ (by simp)
-                · exact inHandler_G d s.stack _ data _ (handlerBody_G hk hf ih b d _ _ data hK3)
+                · split
+                  · exact NoOOF.leaf _ _ (by simp)
+                  · exact inHandler_G d s.stack _ data _ (handlerBody_G hk hf ih b d _ _ data hK3)
 
 /-- `Circ.fuel` is enough in every state -/
 theorem deliver_fuel (c : Circ) (s : St) (d : Nat) (et : EType) (data : Data) :
@@ -1268,6 +1310,69 @@ theorem initAll_good (c : Circ) (s : St) (h : Good s) : Good (initAll c s).1 := 
     split
     · exact h1
     · exact abort_good _ _ h1
+
+/-! ### the main task of a Repeat block: a repetition is a top-level delivery -/
+
+theorem resendBody_frm {dlv : Dlv} (h : DFrm dlv) (b : Blk) (d : Nat) (s : St) (data : Data) (rep : Nat) :
+    Frm s (resendBody dlv b d s data rep).1 := by
+  unfold resendBody
+  exact andThen_frm ((upd_rcur_frm s _).trans (setOutput_frm h ..)) (sendEdges_frm h ..)
+
+theorem taskOutcome_frm (d : Nat) (p : St × Res) : Frm p.1 (taskOutcome d p).1 := by
+  unfold taskOutcome
+  split
+  · exact Frm.refl _
+  · exact (abort_frm _ _).trans (upd_rcur_frm _ _)
+  · exact Frm.refl _
+
+theorem resend_frm (c : Circ) (s : St) (d : Nat) (p : St × Res) (h : resend c s d = some p) :
+    Frm s p.1 := by
+  unfold resend at h
+  split at h
+  · split at h
+    · cases h
+      exact (resendBody_frm (deliver_frm c _) ..).trans (taskOutcome_frm _ _)
+    · cases h
+  · cases h
+
+theorem resendBody_P {P : St → Prop} {dlv : Dlv} (hp : StPred P) (h : DP P dlv) (b : Blk) (d : Nat)
+    (s : St) (data : Data) (rep : Nat) (hs : P s) : P (resendBody dlv b d s data rep).1 := by
+  unfold resendBody
+  exact andThen_P (setOutput_P hp h _ _ _ _ (hp s _ hs rfl rfl rfl rfl)) (fun h1 => sendEdges_P h _ _ _ _ h1)
+
+theorem taskOutcome_good (d : Nat) (p : St × Res) (h : Good p.1) : Good (taskOutcome d p).1 := by
+  unfold taskOutcome
+  split
+  · exact h
+  · exact good_stPred _ _ (abort_good _ _ h) rfl rfl rfl rfl
+  · exact h
+
+theorem taskOutcome_refAbort (d : Nat) (p : St × Res) (h : RefAbort p.1) : RefAbort (taskOutcome d p).1 := by
+  unfold taskOutcome
+  split
+  · exact h
+  · exact fun _ => abort_error _ _
+  · exact h
+
+theorem resend_good (c : Circ) (s : St) (d : Nat) (p : St × Res) (h : resend c s d = some p)
+    (hg : Good s) : Good p.1 := by
+  unfold resend at h
+  split at h
+  · split at h
+    · cases h
+      exact taskOutcome_good _ _ (resendBody_P good_stPred (deliver_good c _) _ _ _ _ _ hg)
+    · cases h
+  · cases h
+
+theorem resend_refAbort (c : Circ) (s : St) (d : Nat) (p : St × Res) (h : resend c s d = some p)
+    (hg : RefAbort s) : RefAbort p.1 := by
+  unfold resend at h
+  split at h
+  · split at h
+    · cases h
+      exact taskOutcome_refAbort _ _ (resendBody_P refAbort_stPred (deliver_refAbort c _) _ _ _ _ _ hg)
+    · cases h
+  · cases h
 
 /-- no block is handling an event, no `event()` frame exists -/
 def Idle (s : St) : Prop := (∀ d, s.active d = false) ∧ s.stack = []
